@@ -234,7 +234,10 @@ def trace_monitors(res, rng, tier):
             continue
         tr = out['trace']
         pending_cancel = None
+        flipped = False
         for ev in tr:
+            if ev['k'] == 'execute' and ev.get('pos_before') and ev.get('pos_after') and ev['pos_before'] * ev['pos_after'] < 0:
+                flipped = True              # known finding F16: a flip fires no close hook, so exits of the old side are never cancelled
             if ev['k'] != 'hook':
                 continue
             if ev['hook'] == 'should_cancel_entry':
@@ -262,7 +265,8 @@ def trace_monitors(res, rng, tier):
                     for r in rows:
                         m = [d for d in avail if abs(abs(d[0]) - r[0]) < 1e-9 and (abs(d[1] - r[1]) < 1e-9 or r[1] == ev['price'])]
                         if not m:
-                            bad.append({'clause': f'stale_{name}_order', 't': ev['t'], 'order': r, 'declared': declared, 'script': sc})
+                            bad.append({'clause': f'stale_{name}_order' + ('_after_position_flip' if flipped else ''), 't': ev['t'], 'order': r, 'declared': declared,
+                                        'script': sc, 'candles': cs, 'exchange_type': typ})
                             break
                         avail.remove(m[0])
             pending_cancel = None
